@@ -24,6 +24,7 @@ N       == atoi(Env("VERIF_GEN_N", "2"))
 NRandom == atoi(Env("VERIF_GEN_RANDOM", "0"))
 RandLen == atoi(Env("VERIF_GEN_RANDLEN", "5"))
 RSrc    == atoi(Env("VERIF_GEN_RSRC", "2"))
+Faults  == Env("VERIF_GEN_FAULTS", "1") = "1"     \* fetch faults in the alphabet (pollers)
 
 AllSrcs == <<"s1", "s2", "s3", "s4">>
 SrcSeq(n) == SubSeq(AllSrcs, 1, n)
@@ -48,8 +49,8 @@ EnvOps(S) ==
   \cup (IF GKind = "fs"
           THEN {<<"chmod", s, "">> : s \in S} \cup {<<"rename", q[1], q[2]>> : q \in {r \in S \X S : r[1] # r[2]}}
           ELSE {})
-  \cup (IF GKind = "poll1" THEN {<<"fault", s, f>> : s \in S, f \in {"up", "refused", "s5xx"}} ELSE {})
-  \cup (IF GKind = "pollN" THEN {<<"fault", "*", f>> : f \in {"up", "refused"}} ELSE {})
+  \cup (IF GKind = "poll1" /\ Faults THEN {<<"fault", s, f>> : s \in S, f \in {"up", "refused", "s5xx"}} ELSE {})
+  \cup (IF GKind = "pollN" /\ Faults THEN {<<"fault", "*", f>> : f \in {"up", "refused"}} ELSE {})
   \cup (IF GKind = "informer" THEN {<<"touch", s, "">> : s \in S} \cup {<<"foreign", s, "">> : s \in S} ELSE {})
 
 Alphabet(S, rich) == UNION {{Step(o[1], o[2], o[3], t) : t \in ThenOf(o[1], rich)} : o \in EnvOps(S)}
